@@ -342,7 +342,7 @@ func checkC14(run *mon.Run, rng *mon.Rand, thorough bool) {
 		run.Declare(c, 8)
 	}
 	c := &c14{run: run, rng: rng, seen: map[string]struct{}{}}
-	depth := pick(thorough, 2, 3)
+	depth := pick(thorough, 2, 4)
 	for g := 1; g <= 3; g++ {
 		var gen []ValKey
 		for i := 1; i <= g; i++ {
